@@ -96,11 +96,39 @@ def verify_store(w, deck, prs, when):
             w.report("once|same-bytes-stored-%s|%s" % ("twice" if len(ps) == 2 else "many", when),
                      "sha=%s parts=%s" % (sha[:10], [str(p.partname) for p in ps]), CLAUSES["once"])
         for p in ps:
-            if p.partname.ext != info["ext"] and m["base"].get(sha, 0) == 0:
+            if p.partname.ext != info["ext"] and m["base"].get(sha, 0) == 0 and sha not in m.get("pre", {}):
                 w.report("type|partname-ext|%s" % when, "%s expected .%s" % (p.partname, info["ext"]), CLAUSES["type"])
-            if p.content_type != info["ct"] and m["base"].get(sha, 0) == 0:
+            if p.content_type != info["ct"] and m["base"].get(sha, 0) == 0 and sha not in m.get("pre", {}):
                 w.report("type|content-type|%s" % when, "%s is %s expected %s" % (p.partname, p.content_type, info["ct"]), CLAUSES["type"])
     w.stats.hit("c15_store_verified")
+
+
+def _start_media(deck):
+    """Images the start deck already holds (on slides, layouts, masters, notes master), readable by Pillow: (name, bytes, format)."""
+    import io
+    import zipfile
+    from PIL import Image
+    out = []
+    try:
+        z = zipfile.ZipFile(io.BytesIO(deck.start_image))
+    except Exception:  # noqa: BLE001
+        return out
+    for n in sorted(z.namelist()):
+        if n.startswith("ppt/media/"):
+            b = z.read(n)
+            try:
+                fmt = Image.open(io.BytesIO(b)).format
+            except Exception:  # noqa: BLE001
+                continue
+            if fmt in gens.IMG_EXT:
+                out.append((n, b, fmt))
+    return out
+
+
+def _bytes_for(deck, rec):
+    if "existing_hex" in rec:
+        return bytes.fromhex(rec["existing_hex"])      # self-contained: a forked deck starts from another image
+    return gens.image_bytes(rec)
 
 
 def g_add(r):
@@ -108,6 +136,8 @@ def g_add(r):
     d.update({"img": gens.gen_image_recipe(r, small=False), "src": O.g_src(r), "how": r.choice(["picture"] * 5 + ["poster", "icon", "placeholder"]),
               "size": r.choice(["none", "none", "none", "w", "h", "both"]), "x": O.emu(r), "y": O.emu(r),
               "cx": r.randint(1, 5000000), "cy": r.randint(1, 5000000), "reuse": r.random() < 0.5})
+    if r.random() < 0.12:
+        d["existing"] = r.randint(0, 7)    # the bytes of an image the deck already holds somewhere (a layout's logo, another slide's picture)
     return d
 
 
@@ -121,7 +151,12 @@ def _add(w, deck, a):
         # repeat an image already added in this history (same bytes, possibly another source form / file name)
         keys = sorted(m["shas"])
         rec = m["shas"][keys[a["cx"] % len(keys)]]["recipe"]
-    data = gens.image_bytes(rec)
+    if a.get("existing") is not None and not a.get("reuse"):
+        med = _start_media(deck)
+        if med:
+            rec = {"existing_hex": med[a["existing"] % len(med)][1].hex(), "fmt": med[a["existing"] % len(med)][2]}
+            w.stats.hit("c15_added_bytes_the_deck_already_holds")
+    data = _bytes_for(deck, rec)
     sha = hashlib.sha1(data).hexdigest()
     fault = (a.get("src") or {}).get("fault")
     sl = O.nav_slide(w, deck, a)
@@ -229,6 +264,7 @@ class ImageOracle(Oracle):
         if not m.get("scanned"):
             base = collections.Counter(hashlib.sha1(p.blob).hexdigest() for p in _image_parts(deck.prs))
             m["base"] = {k: v for k, v in base.items() if v > 1}
+            m["pre"] = {k: True for k in base}      # bytes the deck held when it was first opened: their part keeps the name and type it has
             m["scanned"] = True
 
     def on_checkpoint(self, w, deck, image, ev):
@@ -243,7 +279,7 @@ class ImageOracle(Oracle):
             if len(ns) > max(1, m["base"].get(sha, 0)):
                 w.report("once|saved-zip-has-same-bytes-%d-times" % len(ns), str(ns), CLAUSES["once"])
             for n in ns:
-                if m["base"].get(sha, 0) == 0:
+                if m["base"].get(sha, 0) == 0 and sha not in m.get("pre", {}):
                     if refpkg.ext_of(n) != info["ext"]:
                         w.report("type|saved-member-ext", "%s expected .%s" % (n, info["ext"]), CLAUSES["type"])
                     if pkg.content_type(n) != info["ct"]:
@@ -324,6 +360,17 @@ def pinned_traces(tier):
                     {"op": "checkpoint", "sink": "seekable"}, {"op": "restart"}]
             out.append({"property": ID, "seed": "media-numbered-with-holes-%s-%s" % (dk, mode), "tier": "pinned", "config": {"pinned": True},
                         "start": [{"deck": dk, "xform": [{"kind": "renumber", "family": "media", "mode": mode, "seed": 5}]}], "events": evs})
+    # an image that only an (unused) layout holds: new image, layout removed, another new image of the same type, the layout's image again
+    for dk in ("f-lyt-shapes.pptx", "f-mst-shapes.pptx", "f-prs-notes.pptx"):
+        evs = [{"op": "add_slide", "layout": 0},
+               dict(base, op="c15.add", img={"fmt": "PNG", "w": 4, "h": 4, "seed": 91, "mode": "RGB", "dpi": None}, src={"via": "stream", "pos": 0}),
+               dict(base, op="c15.add", img={"fmt": "JPEG", "w": 4, "h": 4, "seed": 92, "mode": "RGB", "dpi": None}, src={"via": "stream", "pos": 0})]
+        evs += [{"op": "remove_layout", "layout": k} for k in (0, 1, 2, 3, 0, 1)]
+        evs += [dict(base, op="c15.add", img={"fmt": "PNG", "w": 5, "h": 4, "seed": 93, "mode": "RGB", "dpi": None}, src={"via": "stream", "pos": 0}),
+                dict(base, op="c15.add", img={"fmt": "JPEG", "w": 5, "h": 4, "seed": 94, "mode": "RGB", "dpi": None}, src={"via": "stream", "pos": 0})]
+        evs += [dict(base, op="c15.add", img=A, existing=k_, src={"via": "stream", "pos": 0}) for k_ in range(3)]
+        evs += [{"op": "checkpoint", "sink": "seekable"}, {"op": "restart"}]
+        out.append({"property": ID, "seed": "image-held-by-a-layout-%s" % dk, "tier": "pinned", "config": {"pinned": True}, "start": [{"deck": dk}], "events": evs})
     # the same path names a different file of the same length, rewritten within one (simulated) second: BMPs of one pixel size
     for fmt_ in ("BMP", "TIFF"):
         evs = [{"op": "add_slide", "layout": 6}]
